@@ -240,7 +240,8 @@ def page_check(relpath_outdir):
     stem = ".".join((relpath[:-len("/__init__.py")] if is_pkg else relpath[:-3]).split("/")[1:])
     page = os.path.join(outdir, stem + ".rst")
     try:
-        res = docsrc.members_of(relpath) if docsrc.has_title(relpath) else None
+        # "documented module" by an independent reading of the module docstring (not the repo's title parser, which decides the page set)
+        res = docsrc.members_of(relpath) if docsrc.has_title_independent(relpath) else None
     except Exception as e:
         return [{"name": f"page:{relpath}", "verdict": "unencoded", "why": f"pipeline raised {type(e).__name__}"}]
     if res is None:
@@ -316,6 +317,33 @@ def page_check(relpath_outdir):
                 out.append({"name": f"page:{relpath}:roles", "verdict": "discharged"})
     except ValueError as e:
         out.append({"name": f"page:{relpath}:roles", "verdict": "candidate", "why": f"role resolution fails: {e}", "relpath": relpath})
+    # every documented member whose VALUE carries a dimension (symbols, functions, quantities, Average/FiniteDifference/... wrappers) is a
+    # documented symbol: its entry must hold the code name, LaTeX name and dimension, whatever the parser's own classification says
+    if not is_pkg:
+        try:
+            import importlib
+            from symplyphysics.core.symbols.symbols import print_dimension      # noqa: F401  (presence check only)
+        except Exception:
+            print_dimension = None
+        try:
+            mod = importlib.import_module(relpath[:-3].replace("/", "."))
+        except Exception:
+            mod = None
+        if mod is not None:
+            entries = re.split(r"\n(?=\.\. py:data:: )", text)
+            for nm in documented:
+                v = getattr(mod, nm, None)
+                if not hasattr(v, "dimension"):
+                    continue
+                ent = next((e_ for e_ in entries if e_.startswith(f".. py:data:: {nm}\n")), "")
+                try:
+                    want_code, want_latex = code_str(v), latex_str(v)
+                except Exception:
+                    continue
+                fl = re.sub(r"\s+", " ", ent)
+                ok = ("Symbol" in ent and "Dimension" in ent and re.sub(r"\s+", " ", want_code) in fl and re.sub(r"\s+", " ", want_latex) in fl)
+                out.append({"name": f"page:{relpath}:{nm}:listed-with-code-latex-dimension", "verdict": "discharged" if ok else "candidate",
+                            "why": f"documented symbol {nm} ({type(v).__name__}) is not listed with its code name {want_code!r}, LaTeX name and dimension", "relpath": relpath})
     for m in members:
         if m.name.startswith("_"):
             continue
@@ -353,9 +381,25 @@ try:
     print(info)
     if info.get("error") or info.get("flag") is not True:
         print("REPRODUCED"); sys.exit(1)
+    exp, act = c19.page_sets(d)
+    if exp != act:
+        print("pages missing:", sorted(exp - act)[:8], " unexpected pages:", sorted(act - exp)[:8]); print("REPRODUCED"); sys.exit(1)
 finally:
     shutil.rmtree(d, ignore_errors=True)
 '''
+
+
+def page_sets(d):
+    """(pages expected from the sources by the independent reading of the docstrings, pages present in the output directory d)"""
+    expected = set()
+    for f in docsrc.all_documented_sources():
+        try:
+            if docsrc.has_title_independent(f):
+                expected.add(".".join((f[:-len("/__init__.py")] if f.endswith("/__init__.py") else f[:-3]).split("/")[1:]) + ".rst")
+        except Exception:
+            pass
+    actual = {os.path.relpath(os.path.join(r_, f_), d) for r_, _, fs_ in os.walk(d) for f_ in fs_}
+    return expected, actual
 
 
 def tree_digest(d):
@@ -448,14 +492,7 @@ def run(ctx):
             else:
                 ctx.ob("E:two runs byte-identical", "inconclusive", "outputs differ between two runs (PYTHONHASHSEED fixed)")
             srcs = docsrc.all_documented_sources()
-            expected = set()
-            for f in srcs:
-                try:
-                    if docsrc.has_title(f):
-                        expected.add(".".join((f[:-len("/__init__.py")] if f.endswith("/__init__.py") else f[:-3]).split("/")[1:]) + ".rst")
-                except Exception:
-                    pass
-            actual = {os.path.relpath(os.path.join(r_, f_), d1) for r_, _, fs_ in os.walk(d1) for f_ in fs_}
+            expected, actual = page_sets(d1)
             if expected == actual:
                 ctx.ob("E:exactly one page per documented module and package", "discharged", nontrivial=False)
             else:
